@@ -219,18 +219,29 @@ Proof.
   destruct (valid_schedules TS m d wd) as [|s [|s' r]]; simpl in H; try discriminate. eauto.
 Qed.
 
-Lemma bundled_exactly_one name raw : In (name, raw) bundled ->
+Lemma file_total_exactly_one raw : file_total raw = true ->
   exists TS, build raw = Ok TS /\
   forall m d wd, (1 <= m <= 12)%Z -> (1 <= d <= max_days_in_month m)%Z -> (0 <= wd <= 6)%Z ->
     exists s, valid_schedules TS m d wd = [s].
 Proof.
-  intro Hin. pose proof all_files_total_true as H. unfold all_files_total in H.
-  rewrite forallb_forall in H. specialize (H _ Hin). simpl in H. unfold file_total in H.
+  intro H. unfold file_total in H.
   destruct (build raw) as [TS|e]; [|discriminate]. exists TS. split; [reflexivity|].
   intros m d wd Hm Hd Hw. rewrite forallb_forall in H.
   specialize (H _ (in_calendar_cells m d wd Hm Hd Hw)). simpl in H.
   now apply exactly_one_singleton.
 Qed.
+
+Lemma bundled_file_total name raw : In (name, raw) bundled -> file_total raw = true.
+Proof.
+  intro Hin. pose proof all_files_total_true as H. unfold all_files_total in H.
+  rewrite forallb_forall in H. exact (H _ Hin).
+Qed.
+
+Lemma bundled_exactly_one name raw : In (name, raw) bundled ->
+  exists TS, build raw = Ok TS /\
+  forall m d wd, (1 <= m <= 12)%Z -> (1 <= d <= max_days_in_month m)%Z -> (0 <= wd <= 6)%Z ->
+    exists s, valid_schedules TS m d wd = [s].
+Proof. intro Hin. apply file_total_exactly_one. eapply bundled_file_total; eauto. Qed.
 
 (* ------------------------------------------------------------------ every instant *)
 Lemma instant_cell t :
@@ -247,7 +258,7 @@ Proof.
   unfold valid_schedules in Hin. now apply filter_In in Hin.
 Qed.
 
-Lemma bundled_all_instants name raw : In (name, raw) bundled ->
+Lemma file_total_all_instants raw : file_total raw = true ->
   exists TS, build raw = Ok TS /\
   forall t : Z, exists s p,
     valid_schedules TS (t_month t) (t_day t) (t_weekday t) = [s] /\
@@ -255,7 +266,7 @@ Lemma bundled_all_instants name raw : In (name, raw) bundled ->
     latest_breakpoint_rate (s_tariffs s) (target_hour t) p /\
     get_demand_charge TS t = Ok (s_demand s).
 Proof.
-  intro Hin. destruct (bundled_exactly_one _ _ Hin) as (TS & Hb & Hone).
+  intro Hft. destruct (file_total_exactly_one _ Hft) as (TS & Hb & Hone).
   exists TS. split; [assumption|]. intro t.
   destruct (instant_cell t) as (Hm & Hd & Hw).
   destruct (Hone _ _ _ Hm Hd Hw) as (s & Hs). exists s.
@@ -269,6 +280,53 @@ Proof.
   - unfold get_tariff. rewrite Hsch. simpl. now rewrite Hp.
   - now apply lookup_some.
   - unfold get_demand_charge. now rewrite Hsch.
+Qed.
+
+Lemma bundled_all_instants name raw : In (name, raw) bundled ->
+  exists TS, build raw = Ok TS /\
+  forall t : Z, exists s p,
+    valid_schedules TS (t_month t) (t_day t) (t_weekday t) = [s] /\
+    get_tariff TS t = Ok p /\
+    latest_breakpoint_rate (s_tariffs s) (target_hour t) p /\
+    get_demand_charge TS t = Ok (s_demand s).
+Proof. intro Hin. apply file_total_all_instants. eapply bundled_file_total; eauto. Qed.
+
+(* completeness of the finite check: a cell that fails is the date of a real instant at which the lookup raises *)
+Lemma all_cells_realised_true : all_cells_realised = true.
+Proof. vm_compute. reflexivity. Qed.
+
+Lemma forallb_false_exists {A} (f : A -> bool) l : forallb f l = false -> exists x, In x l /\ f x = false.
+Proof.
+  induction l as [|a l IH]; simpl; [discriminate|].
+  destruct (f a) eqn:E; simpl.
+  - intro H. destruct (IH H) as (x & Hx & Hf). exists x. auto.
+  - intros _. exists a. auto.
+Qed.
+
+Lemma midnight_fields y m d : valid_date y m d = true ->
+  let t := (ordinal y m d * 86400 * 1000000)%Z in
+  t_month t = m /\ t_day t = d /\ t_weekday t = weekday (ordinal y m d).
+Proof.
+  intros Hv t. unfold t_month, t_day, t_weekday, secs, us_per_s, t.
+  rewrite Z.div_mul by lia. unfold ord_of. rewrite Z.div_mul by lia.
+  unfold month_of, day_of. rewrite (civil_ordinal _ _ _ Hv). auto.
+Qed.
+
+Lemma file_total_complete raw TS : build raw = Ok TS -> file_total raw = false ->
+  exists t e, get_tariff TS t = Err e /\ get_demand_charge TS t = Err e.
+Proof.
+  intros Hb Hft. unfold file_total in Hft. rewrite Hb in Hft.
+  destruct (forallb_false_exists _ _ Hft) as ([[m d] wd] & Hin & Hf).
+  pose proof all_cells_realised_true as Hr. unfold all_cells_realised in Hr.
+  rewrite forallb_forall in Hr. specialize (Hr _ Hin). unfold cell_year in Hr.
+  destruct (find _ witness_years) as [y|] eqn:Ey; [|discriminate].
+  apply find_some in Ey. destruct Ey as [_ Hy]. apply andb_true_iff in Hy. destruct Hy as [Hv Hw].
+  apply Z.eqb_eq in Hw.
+  destruct (midnight_fields y m d Hv) as (Em & Ed & Ewd). rewrite Hw in Ewd.
+  set (t := (ordinal y m d * 86400 * 1000000)%Z) in *.
+  exists t. unfold get_tariff, get_demand_charge, schedule_at, pick_schedule. rewrite Em, Ed, Ewd.
+  unfold exactly_one in Hf.
+  destruct (valid_schedules TS m d wd) as [|s [|s' r]]; simpl in Hf; try discriminate; eexists; split; reflexivity.
 Qed.
 
 (* ------------------------------------------------------------------ wrap-around seasons *)
